@@ -34,6 +34,18 @@ Tbl == C.tbl
 Deterministic == \A i \in DOMAIN Tbl : \A t \in DOMAIN Tbl[i].actions : Len(Tbl[i].actions[t]) = 1
 \* exactness is claimed for deterministic tables with no strategy applied and no priorities/assoc (C04)
 Exact == Deterministic /\ ~C.ps /\ ~C.pse /\ ~C.prio
+\* The class of finding D47: the table holds a CYCLE OF EMPTY REDUCTIONS on some lookahead t -- a state whose (first, i.e. taken) action on t
+\* is the reduction of an empty production A, whose goto on A is a state of the same kind, and so on back to a state already seen.  An LR
+\* parser that reaches such a state with t ahead pushes A's for ever.  (A canonical LR(1) lookahead never allows this; SLR FOLLOW sets do.)
+RECURSIVE EmptyWalk(_, _, _)
+EmptyWalk(q, t, k) ==
+  IF k = 0 THEN TRUE
+  ELSE IF t \notin DOMAIN Tbl[q].actions THEN FALSE
+  ELSE LET a == Tbl[q].actions[t][1] IN
+       IF a.a # "R" THEN FALSE
+       ELSE IF P[a.p+1].rhs # <<>> \/ P[a.p+1].lhs \notin DOMAIN Tbl[q].gotos THEN FALSE
+       ELSE EmptyWalk(Tbl[q].gotos[P[a.p+1].lhs] + 1, t, k - 1)
+EmptyReduceCycle == \E q \in DOMAIN Tbl : \E t \in DOMAIN Tbl[q].actions : EmptyWalk(q, t, Len(Tbl) + 1)
 
 \* ---------------------------------------------------------------- trees
 IsT(n) == n.k = "T"
@@ -154,7 +166,8 @@ Clauses(RF) ==
       \* ---- C04 soundness (always) -- consume_input=False cases are what C17 reads
       (IF C.built /\ lrTree /\ ~sentence THEN {"C04:accepts-nonsentence"} ELSE {})
  \cup (IF C.built /\ lrTree /\ lrDeriv # "ok" THEN {"C04:invalid-tree:" \o lrDeriv} ELSE {})
- \cup (IF C.built /\ lr.kind = "timeout" THEN {"C04:does-not-terminate"} ELSE {})
+ \* (C04 promises that a deterministic unresolved table accepts every sentence; that a REJECTION terminates is C10's statement, below)
+ \cup (IF C.built /\ Exact /\ C.consume /\ sentence /\ lr.kind = "timeout" THEN {"C04:does-not-terminate"} ELSE {})
       \* ---- C04 exactness (deterministic unresolved table)
  \cup (IF C.built /\ Exact /\ C.consume /\ sentence /\ ~lrTree THEN {"C04:rejects-sentence"} ELSE {})
  \cup (IF C.built /\ Exact /\ C.consume /\ (refTotal > 1 \/ refTotal = -1) THEN {"C04:deterministic-but-ambiguous"} ELSE {})
@@ -173,7 +186,8 @@ Clauses(RF) ==
       \* ---- C10 rejections (only where the lattice is a single token path)
  \cup (IF C.consume /\ ~sentence /\ Linear THEN ErrClauses("glr", glr, errNode, expected, TRUE) ELSE {})
  \cup (IF C.consume /\ ~sentence /\ Linear /\ C.built /\ Exact THEN ErrClauses("lr", lr, errNode, expected, FALSE) ELSE {})
- \cup (IF C.consume /\ ~sentence /\ C.built /\ ~Exact /\ lr.kind \notin {"syntax", "disamb", "tree"} THEN {"C10:lr:other-exception"} ELSE {})
+ \cup (IF C.consume /\ ~sentence /\ C.built /\ ~Exact /\ lr.kind \notin {"syntax", "disamb", "tree", "timeout"} THEN {"C10:lr:other-exception"} ELSE {})
+ \cup (IF C.consume /\ ~sentence /\ C.built /\ lr.kind = "timeout" THEN {"C10:lr:does-not-terminate"} ELSE {})
  \* trees built by parsers constructed with debug=True are trees like any other: the same position and losslessness clauses
  \cup (IF C.hasdbg /\ C.lrdbg.kind = "tree" /\ Struct(C.lrdbg.tree) = "ok" /\ Positions(C.lrdbg.tree) # "ok" THEN {"C08:lr(debug=True):" \o Positions(C.lrdbg.tree)} ELSE {})
  \cup UNION { IF C.hasdbg /\ Struct(C.glrdbg.trees[i]) = "ok" /\ Positions(C.glrdbg.trees[i]) # "ok" THEN {"C08:glr(debug=True):" \o Positions(C.glrdbg.trees[i])} ELSE {} : i \in DOMAIN C.glrdbg.trees }
@@ -182,7 +196,7 @@ Clauses(RF) ==
        THEN {"C10:lr:disambiguation-error-not-located-at-an-ambiguous-token"} ELSE {})
  \cup (IF C.consume /\ sentence /\ glr.kind \notin {"forest"} THEN {"C01:glr-rejects-sentence"} ELSE {})
 
-Flags(RF) == [sentence |-> (Roots \cap RF.all) # {}, exact |-> C.built /\ Exact, linear |-> Linear,
+Flags(RF) == [sentence |-> (Roots \cap RF.all) # {}, exact |-> C.built /\ Exact, linear |-> Linear, emptyReduceCycle |-> C.built /\ EmptyReduceCycle,
               trailingLayoutExcessOnly |-> \A i \in DOMAIN C.glr.trees : Struct(C.glr.trees[i]) # "ok" \/ OnlyTrailingLayoutExcess(C.glr.trees[i]),
               lvp |-> LVP(EarleySets(P, PathFrom(L.s0)[1])), ntok |-> Len(PathFrom(L.s0)[1])]
 
